@@ -262,7 +262,7 @@ def command (T : Table) : Nat → List Bytes → Option Bytes → List Tok → V
           | some names => match prev with
             | some p => if decide (p ∈ names) then .valid else .invalid
             | none => .invalid
-        let (va, r1) := arguments T loaded (rest.length + 1) d rest
+        let (va, r1) := arguments T loaded (2 * rest.length + 2) d rest
         let v := (vext.join vfollow).join va
         if d.acceptChildren then
           match r1 with
